@@ -222,27 +222,61 @@ pub fn check_case(cx: &mut Ctx, case: &Case, mut rep: Option<&mut Report>) -> Ve
         let want = model.ask(&format!("fslice {:x} 1", off));
         (off, want)
     };
+    // every differing header / secondary-header field is reported on its own; a difference inside
+    // the banks is located by bisection
+    let header_diffs = |other: &BTreeMap<String, String>| -> Vec<(usize, String)> {
+        let mut v: Vec<(usize, String)> = vec![];
+        let ohdr = unhex(&other["hdr"]);
+        for k in 0..27.min(bytes.len()).min(ohdr.len()) {
+            if bytes[k] != ohdr[k] {
+                v.push((k, format!("{:02x}", ohdr[k])));
+            }
+        }
+        if other["sec"] != "-" && got["sec"] != "-" {
+            let osec = unhex(&other["sec"]);
+            for k in 0..4 {
+                if bytes[49179 + k] != osec[k] {
+                    v.push((49179 + k, format!("{:02x}", osec[k])));
+                }
+            }
+        }
+        v
+    };
+    let mut report = |out: &mut Vec<Finding>, model: &mut Model, other: &BTreeMap<String, String>, which: &str, phase: &'static str, kind: Kind| {
+        let olen: usize = other["len"].parse().unwrap_or(0);
+        let mut diffs = header_diffs(other);
+        if diffs.is_empty() {
+            let (off, want) = locate(model, other, which);
+            diffs.push((off, want));
+        }
+        let mut seen: Vec<String> = vec![];
+        for (off, want) in diffs {
+            let group = if bytes.len() != olen && off >= bytes.len().min(olen) { "length".to_string() } else { file_field(off, olen) };
+            if seen.contains(&group) {
+                continue;
+            }
+            seen.push(group.clone());
+            out.push(Finding {
+                phase,
+                group,
+                kind,
+                got: format!("len={} byte[{}]={:02x?}", bytes.len(), off, bytes.get(off)),
+                want: format!("len={} byte[{}]={}", olen, off, want),
+            });
+        }
+    };
     if !spec_ok {
-        let slen: usize = sfile["len"].parse().unwrap_or(0);
-        let (off, want) = locate(model, &sfile, "specfile 0");
-        out.push(Finding {
-            phase: "save",
-            group: if bytes.len() != slen && off >= bytes.len().min(slen) { "length".into() } else { file_field(off, slen) },
-            kind: Kind::SpecViolated,
-            got: format!("len={} byte[{}]={:02x?}", bytes.len(), off, bytes.get(off)),
-            want: format!("len={} byte[{}]={}", slen, off, want),
-        });
+        report(&mut out, model, &sfile, "specfile 0", "save", Kind::SpecViolated);
     }
     if got != mfile {
-        let mlen: usize = mfile["len"].parse().unwrap_or(0);
-        let (off, want) = locate(model, &mfile, "save 0");
-        out.push(Finding {
-            phase: if spec_ok { "save" } else { "save-model" },
-            group: file_field(off, mlen),
-            kind: Kind::ModelMismatch,
-            got: format!("len={} byte[{}]={:02x?}", bytes.len(), off, bytes.get(off)),
-            want: format!("len={} byte[{}]={}", mlen, off, want),
-        });
+        // a field the spec already decided is not reported a second time as a model mismatch
+        let mut tmp = vec![];
+        report(&mut tmp, model, &mfile, "save 0", "save", Kind::ModelMismatch);
+        for f in tmp {
+            if !out.iter().any(|g| g.phase == "save" && g.group == f.group) {
+                out.push(f);
+            }
+        }
     }
     // 2. save is pure
     let o1 = observe(&mut e, m128);
